@@ -55,6 +55,22 @@ PLANS = {
         "gen": [gen("cmp", "pairs", ["compare"]), gen("cmp2", "pairs2", ["compare"])],
         "bounds": "all ordered pairs of the 70-document pair universe (number encodings of equal value, 2^53 neighbours, prefixes, length-only and deep differences)",
     },
+    "C10": {
+        "gen": [
+            {"name": "fault", "module": "GenFault", "constants": {"Family": '"fault"', "Double": "FALSE"}},
+            {"name": "texts", "module": "GenFault", "constants": {"Family": '"texts"', "Double": "FALSE"}},
+            {"name": "fault2", "module": "GenFault", "constants": {"Family": '"fault"', "Double": "TRUE"}, "tiers": ("thorough",)},
+        ],
+        "bounds": "33 documents x every truncation, every single bit flip, every byte set to each of 12 boundary values, every inserted boundary byte and every deleted byte at every offset (thorough: all double faults on 8 small documents); rewritten root counts capped below 2^24; 20 header-like JSON texts of >= 8 bytes",
+        "assumptions": ["root header counts >= 2^24 are excluded: the decoder's pre-allocation would then depend on the host's overcommit policy"],
+    },
+    "C11": {
+        "gen": [gen("acc11", "acc11", ACC_OPS + ["to_string", "to_pretty_string", "lazy", "comparable_all"], rp="{1, 2, 3}"),
+                gen("edit11", "edit11", EDIT_OPS + ["array_distinct"], rp="{0, 1, 3}"),
+                gen("pairs11", "pairs11", ["compare", "contains", "concat", "array_intersection", "array_except", "array_overlap"], rp="{0, 2, 3}")],
+        "bounds": "26-document universe (every scalar class incl. multi-byte/control/quote strings, numeric strings, -0.0, 2^53+1; nested containers) x every argument of the accessor/editor families x text spacings {compact, spaced, CRLF+full \\u escapes}; two-document functions over all pairs of a 22-document universe x all representation vectors over {binary, two text spacings}",
+        "assumptions": [RN_ASSUMPTION],
+    },
     "C12": {
         "gen": [gen("contains", "pairs", ["contains"]), gen("contains2", "pairs2", ["contains"])],
         "bounds": "all ordered pairs of the pair universe",
@@ -64,6 +80,10 @@ PLANS = {
                 gen("sets2", "pairs2", ["array_intersection", "array_except", "array_overlap"]),
                 gen("distinct", "edit", ["array_distinct"])],
         "bounds": "all ordered pairs of the pair universe; distinct over the bounded universe",
+    },
+    "C19": {
+        "gen": [gen("serde", "render", ["serde"])],
+        "bounds": "the C03 universe: strings of every code-point class as values and keys, every finite number of the boundary set (u64/i64 extremes), nested empty containers",
     },
     "C18": {
         "gen": [gen("num", "num", ["num", "num_decode", "casts"]),
